@@ -338,9 +338,12 @@ def value_class(kind, x):
         if len(x) == 0:
             return "empty"
         ek = {"l_str": "str", "l_bool": "bool", "l_f32": "f64", "l_f64": "f64"}.get(kind, "int")
-        cl = sorted(set(value_class(ek, e) for e in x))
-        nontriv = [k for k in cl if k not in ("plain", "positive", "bool", "zero", "integral")]
-        return (nontriv[0] if nontriv else cl[0])
+        cl = set(value_class(ek, e) for e in x)
+        for k in ("non-ascii", "has-bracket-or-brace", "negative", "empty", "has-comma", "has-colon", "literal-lookalike", "digits", "has-space"):
+            if k in cl:
+                return k
+        nontriv = sorted(k for k in cl if k not in ("plain", "positive", "bool", "zero", "integral"))
+        return (nontriv[0] if nontriv else sorted(cl)[0])
     if kind == "obj":
         return "object"
     if kind == "arr":
@@ -428,7 +431,9 @@ def essential(v, path="", depth=0):
             fam = re.sub(r"^l_[iu]\d+$", "l_int", kind)
             fam = re.sub(r"^l_f\d+$", "l_float", fam)
             vc = value_class(kind, v[name])
-            out.append("%s:%s%s" % (fam, vc, "@nested" if depth and vc == "has-bracket-or-brace" else ""))
+            if kind in ("str", "l_str") and vc in ("non-ascii", "has-bracket-or-brace"):
+                fam = "string"   # one mechanism whether the string sits in a field, a list or a nested element
+            out.append("%s:%s" % (fam, vc))
     return out
 
 
@@ -506,6 +511,8 @@ def shrink(v, klass, lane, budget=40):
         # prefer the smallest candidate that still fails the same way
         best = None
         for cand, r in zip(cands, res):
+            if not cand and v:
+                continue   # the empty object is its own case; never shrink a non-empty failure into it
             if r[0] == klass:
                 size = len(encode(cand))
                 if best is None or size < best[0]:
